@@ -7,6 +7,7 @@ import (
 	"runtime/debug"
 	"strings"
 	"unsafe"
+	"verifharness/dirtysw"
 
 	"github.com/Eyevinn/mp4ff/avc"
 	"github.com/Eyevinn/mp4ff/bits"
@@ -438,7 +439,7 @@ func opBoxSR(x *octx, in *input, _ int) (uint64, error) {
 		return 0, err
 	}
 	h := mix(deepHash(b), b.Size(), runner.HashStr(b.Type()))
-	sw := bits.NewFixedSliceWriter(int(b.Size()))
+	sw := dirtysw.New(int(b.Size()))
 	if err := b.EncodeSW(sw); err != nil {
 		return 0, err
 	}
@@ -518,7 +519,7 @@ func opEncodeSW(x *octx, in *input, variant int) (uint64, error) {
 	if err != nil {
 		return 0, err
 	}
-	sw := bits.NewFixedSliceWriter(int(f.Size()) + 1024)
+	sw := dirtysw.New(int(f.Size()) + 1024)
 	if err := f.EncodeSW(sw); err != nil {
 		return 0, err
 	}
